@@ -585,13 +585,22 @@ func runAccess(c *vh.Ctx, m *vh.Model, sh Shape, only string, known bool) {
 	for _, x := range cells {
 		lines = append(lines, "exec\t"+H+"\t"+f.modelSite(x)+"\t"+x.modelOp())
 	}
-	var ans []string
+	var ans, specAns []string
 	if m != nil {
 		var err error
 		ans, err = m.AskBatch(lines)
 		if err != nil {
 			c.Mismatch(AccCase{"acc", sh, only}, "", err.Error(), "model driver failed")
 			ans = nil
+		}
+		// the Go oracle against the Lean specification (Spec.Access.allowedB, proved to decide Spec.Access.allowed)
+		var sl []string
+		for _, x := range cells {
+			sl = append(sl, "spec\t"+H+"\t"+x.Mod+"\t"+optID(f, x.Site.Lex)+"\t"+optID(f, "D"))
+		}
+		if specAns, err = m.AskBatch(sl); err != nil {
+			c.Mismatch(AccCase{"acc", sh, only}, "", err.Error(), "model driver failed (spec)")
+			specAns = nil
 		}
 	}
 	for i, x := range cells {
@@ -619,6 +628,15 @@ func runAccess(c *vh.Ctx, m *vh.Model, sh Shape, only string, known bool) {
 		}
 		// the property itself (oracle = PHP's rule on the lexical class, no model involved)
 		allowed := f.specAllowed(x)
+		if specAns != nil {
+			want := "0"
+			if allowed {
+				want = "1"
+			}
+			if specAns[i] != want {
+				c.Mismatch(cas, "go-oracle:"+want, "lean-spec:"+specAns[i], "the harness oracle and Spec.Access.allowed disagree")
+			}
+		}
 		isOK := ob.res == "ok"
 		isDenied := strings.HasPrefix(ob.res, "denied=")
 		switch {
